@@ -661,7 +661,10 @@ def check_C13(ctx):
     ctx.rule = ("TLC derives for EVERY subset of the terms of every explored ontology child_nodes, the gene/OMIM/ORPHA id unions and the aggregated information content arguments "
                 "(HpoSetOps), and for ontologies with obsolete / replaced / modifier terms (OntGen pool loaded through from_bytes) without_modifier, without_obsolete, with_replaced_obsolete "
                 "(incl. replacements colliding with members or pointing outside the ontology) and the category counts (HpoSetMeta); the harness compares the copying and the in-place variants, "
-                "len / contains / iter / get; non-trivial = at least one edge and one fact / every metadata case")
+                "len / contains / iter / get.  spec/HpoSetMachine.tla models ONE HpoSet object living through a history of in-place (remove_modifier, remove_obsolete, "
+                "replace_obsolete, extend) and copying operations: TLC explores every history of <= 2 (3 thorough) operations from every initial subset of four worlds and emits the "
+                "observation (members, gene/OMIM/ORPHA unions, IC arguments, category counts) required after every step; the harness replays them on one mutable object; "
+                "non-trivial = at least one edge and one fact / every metadata case / a history that changes the members")
     allout = extras_lines(ctx, big=False)
     s = hv(ctx, "replay-sim", prop="C13", **{"in": allout})
     ctx.traces += s.get("cases", 0)
@@ -669,6 +672,20 @@ def check_C13(ctx):
     so = tlc(ctx, "mc/MC_SetMeta.cfg", "mc/MC_SetMeta.tla", workers=4)["out"]
     ss = hv(ctx, "replay-setmeta", prop="C13", **{"in": so})
     ctx.traces += ss.get("cases", 0)
+    # the HpoSet as an OBJECT: every history of <= 2 (3) in-place / copying operations from every initial subset of four 7-term worlds
+    # (replacement chains in both id directions, replacement colliding with a member, obsolete terms, a modifier below a phenotype term);
+    # after every step every observer must return the pure function of the current members (stale caches, feedback inside in-place loops)
+    from concurrent.futures import ThreadPoolExecutor
+    def one(v):
+        cfg = cfgfile(ctx, f"MC_SetMachine{v}", "mc/MC_SetMachine.tla", open(os.path.join(SPEC, "mc", f"MC_SetMachine{v}.cfg")).read().replace("MaxOps = 2", "MaxOps = %d" % (2 if ctx.quick else 3)))
+        return tlc(ctx, cfg, "mc/MC_SetMachine.tla", workers=3, timeout=3000)["out"]
+    with ThreadPoolExecutor(max_workers=4) as ex:
+        mouts = list(ex.map(one, (1, 2, 3, 4)))
+    mo = concat(ctx, mouts, "c13-machine-lines.txt")
+    ms = hv(ctx, "replay-setmachine", prop="C13", **{"in": mo}, worlds=mo)
+    ctx.traces += ms.get("cases", 0)
+    ctx.extra["set_object_histories"] = ms.get("cases", 0)
+    ctx.assumptions += ["a replacement id that does not resolve in the ontology cannot be iterated (documented panic); it is compared through contains() only and excluded from the object histories"]
     return finish(ctx)
 
 
